@@ -18,7 +18,7 @@ def run(rep, tier, seed):
     # ---- bounded: adjoint identity
     singles = progs.single_op_programs(4)
     configs = [(1, 1), (3, 2)] if tier == 'quick' else [(1, 1), (2, 1), (3, 2), (4, 3)]
-    res = T.run_adjoint_corpus(singles, configs, rng)
+    res = T.run_adjoint_corpus(singles, configs, rng, patterns=('dense', 'zero0', 'last', 'special-point'))
     bad_ops = set()
     counts = {}
     for o in res:
@@ -49,7 +49,7 @@ def run(rep, tier, seed):
     n = 40 if tier == 'quick' else 400
     good = [k for k in progs.OPS]
     rp = [p for p in progs.random_programs(n * 2, rng, N=4, maxlen=4 if tier == 'quick' else 6) if not uses_bad(p, bad_ops)][:n]
-    res2 = T.run_adjoint_corpus(rp, [(3, 2)] if tier == 'quick' else [(2, 1), (4, 2)], rng)
+    res2 = T.run_adjoint_corpus(rp, [(3, 2)] if tier == 'quick' else [(2, 1), (4, 2)], rng, patterns=('dense', 'zero0', 'special-point'))
     for o in res2:
         counts[o['status']] = counts.get(o['status'], 0) + 1
         if o['status'] in ('mismatch', 'sweep-raises', 'seed-modified'):
@@ -59,7 +59,7 @@ def run(rep, tier, seed):
     allres = res + res2
     distinct = len({(o['program'], o['D'], o['P']) for o in allres if o['status'] in ('ok', 'mismatch')})
     rep.add_bounded('adjoint identity on recorded programs', len(allres), distinct,
-                    'single-op programs for every differentiable op/variant (constants on either side, all basic index forms, dot of every rank pair, buffers with overwrites) plus seeded random compositions; seed ybar random at all orders and non-symmetric; x(t) with distinct base points per direction; F\'(x)v from forward propagation alone (order-shift at degree 2D); non-trivial = sweep completed and D*P inputs have non-zero higher coefficients',
+                    'single-op programs for every differentiable op/variant (constants on either side, all basic index forms, dot of every rank pair, buffers with overwrites) plus seeded random compositions; seed ybar random and non-symmetric with patterns {dense at all orders, order-0 coefficient zero, only the highest order non-zero}, base points generic and special (0/1 entries, where intermediate adjoints vanish at order 0); x(t) with distinct base points per direction; F\'(x)v from forward propagation alone (order-shift at degree 2D); non-trivial = sweep completed and D*P inputs have non-zero higher coefficients',
                     [{'program': o['desc'], 'D': o['D'], 'P': o['P'], 'status': o['status']} for o in allres[:2]],
                     'programs <= %d ops, D <= %d, P <= %d, N = 4' % (4 if tier == 'quick' else 6, max(c[0] for c in configs), max(c[1] for c in configs)))
     rep.extra['status_counts'] = counts
